@@ -182,6 +182,14 @@ def run_runner_case(case: dict[str, Any]) -> dict[str, Any]:
         ns["run"] = run
         root_cls = type("Root", (CLIApplicationComponent,), ns)
     else:
+        if len(case["comps"]) % 2 == 0:
+            # an ordinary component that happens to have a method called run() (the body of its own worker task, say):
+            # that does not make it a command line application
+            async def run(self: Any) -> int:
+                log.append(["NOT-A-CLI-COMPONENT run() called"])
+                return 3
+
+            ns["run"] = run
         root_cls = type("Root", (Component,), ns)
 
     backend = case.get("backend", "asyncio")
